@@ -868,43 +868,68 @@ Proof.
   intros reserved n H. unfold render_ident.
   destruct (mem_bytes n reserved) eqn:Em; cbn [orb].
   - apply parse_squote; assumption.
-  - destruct (is_plain_ident n) eqn:Ep; cbn [negb].
-    + unfold parse_ident. destruct n as [|c s]; [discriminate|].
-      rewrite (plain_ident_no_sq_head _ _ Ep). rewrite Ep, Em. reflexivity.
+  - destruct (is_bool_kw n) eqn:Eb; cbn [orb].
     + apply parse_squote; assumption.
+    + destruct (is_plain_ident n) eqn:Ep; cbn [negb].
+      * unfold parse_ident. destruct n as [|c s]; [discriminate|].
+        rewrite (plain_ident_no_sq_head _ _ Ep). rewrite Ep, Em, Eb. reflexivity.
+      * apply parse_squote; assumption.
 Qed.
 
-(* faithful renderer (_format_reserved_word): holds for reserved words and plain identifiers only *)
-Theorem quote_reserved_roundtrip_impl_partial : forall reserved n, has_sq n = false ->
-  mem_bytes n reserved = true \/ is_plain_ident n = true ->
-  parse_ident reserved (render_ident_impl reserved n) = Some n.
+Lemma already_quoted_has_sq n : already_quoted n = true -> has_sq n = true.
 Proof.
-  intros reserved n H Hd. unfold render_ident_impl.
+  unfold already_quoted. destruct n as [|c [|c' r]]; try discriminate.
+  destruct (rev (c :: c' :: r)); [discriminate|]. intro H. apply andb_prop in H. destruct H as [H _].
+  apply Ascii.eqb_eq in H. subst. unfold has_sq. simpl. rewrite Ascii.eqb_refl. reflexivity.
+Qed.
+
+(* the coded rule IS the specified one on every name a script can hold (names never contain a quote character) *)
+Theorem render_ident_impl_is_spec : forall reserved n, has_sq n = false ->
+  render_ident_impl reserved n = render_ident reserved n.
+Proof.
+  intros reserved n H. unfold render_ident_impl, render_ident.
+  destruct (mem_bytes n reserved); cbn [orb]; [reflexivity|].
+  destruct (already_quoted n) eqn:Eq; [apply already_quoted_has_sq in Eq; congruence|]. reflexivity.
+Qed.
+
+(* FULL statement for _format_reserved_word as coded now (/repo d900c32) *)
+Theorem quote_reserved_roundtrip_impl : forall reserved n, has_sq n = false ->
+  parse_ident reserved (render_ident_impl reserved n) = Some n.
+Proof. intros. rewrite render_ident_impl_is_spec by assumption. apply quote_reserved_roundtrip; assumption. Qed.
+
+(* BEFORE THE FIX: held for reserved words and plain identifiers only … *)
+Theorem quote_reserved_roundtrip_partial_before_fix : forall reserved n, has_sq n = false ->
+  mem_bytes n reserved = true \/ (is_plain_ident n = true /\ is_bool_kw n = false) ->
+  parse_ident reserved (render_ident_before_fix reserved n) = Some n.
+Proof.
+  intros reserved n H Hd. unfold render_ident_before_fix.
   destruct (mem_bytes n reserved) eqn:Em.
   - apply parse_squote; assumption.
-  - destruct Hd as [Hd|Ep]; [discriminate|].
+  - destruct Hd as [Hd|[Ep Eb]]; [discriminate|].
     unfold parse_ident. destruct n as [|c s]; [discriminate|].
-    rewrite (plain_ident_no_sq_head _ _ Ep). rewrite Ep, Em. reflexivity.
+    rewrite (plain_ident_no_sq_head _ _ Ep). rewrite Ep, Em, Eb. reflexivity.
 Qed.
 
-(* … and fails for EVERY other name (e.g. a quoted name with a blank): the rendered text is not an identifier *)
-Theorem quote_reserved_roundtrip_impl_refuted : forall reserved n,
-  has_sq n = false -> mem_bytes n reserved = false -> is_plain_ident n = false ->
-  parse_ident reserved (render_ident_impl reserved n) = None.
+(* … and every other name (a quoted name with a blank, 'true') was printed as text that is not that identifier *)
+Theorem quote_reserved_roundtrip_refuted_before_fix : forall reserved n,
+  has_sq n = false -> mem_bytes n reserved = false -> is_plain_ident n = false \/ is_bool_kw n = true ->
+  parse_ident reserved (render_ident_before_fix reserved n) = None.
 Proof.
-  intros reserved n Hq Hm Hp. unfold render_ident_impl. rewrite Hm. unfold parse_ident.
+  intros reserved n Hq Hm Hp. unfold render_ident_before_fix. rewrite Hm. unfold parse_ident.
   destruct n as [|c s]; [reflexivity|].
   assert (Ascii.eqb c c_sq = false) as ->.
   { unfold has_sq in Hq. simpl in Hq. apply orb_false_iff in Hq. destruct Hq as [Hq _].
     rewrite Ascii.eqb_sym. exact Hq. }
-  rewrite Hp. reflexivity.
+  destruct Hp as [Hp|Hp]; rewrite Hp; [reflexivity|]. rewrite andb_false_r. reflexivity.
 Qed.
 
-Lemma quote_reserved_roundtrip_impl_witness : forall reserved, mem_bytes (B "a b") reserved = false ->
-  has_sq (B "a b") = false /\ parse_ident reserved (render_ident_impl reserved (B "a b")) <> Some (B "a b").
+Lemma quote_reserved_roundtrip_witness_before_fix : forall reserved, mem_bytes (B "a b") reserved = false ->
+  parse_ident reserved (render_ident_before_fix reserved (B "a b")) <> Some (B "a b")
+  /\ parse_ident reserved (render_ident_impl reserved (B "a b")) = Some (B "a b").
 Proof.
-  intros reserved H. split; [reflexivity|].
-  rewrite quote_reserved_roundtrip_impl_refuted by (assumption || reflexivity). discriminate.
+  intros reserved H. split.
+  - rewrite quote_reserved_roundtrip_refuted_before_fix by (assumption || reflexivity || (left; reflexivity)). discriminate.
+  - apply quote_reserved_roundtrip_impl. reflexivity.
 Qed.
 
 (* ================================================================================================================== *)
